@@ -4,8 +4,9 @@
 package memstore
 
 import (
-	"errors"
+	"fmt"
 	"io"
+	"os"
 	"path/filepath"
 	"sync"
 	"sync/atomic"
@@ -189,7 +190,8 @@ type handle struct {
 	closed atomic.Bool
 }
 
-var ErrClosed = errors.New("memstore: file already closed")
+// ErrClosed wraps os.ErrClosed, as reads and writes on a closed *os.File do.
+var ErrClosed = fmt.Errorf("memstore: %w", os.ErrClosed)
 
 func (h *handle) ReadAt(p []byte, off int64) (int, error) {
 	h.s.ev(Event{Kind: "read", Name: h.name, Off: off, Len: len(p)})
